@@ -626,6 +626,7 @@ func genFacts(repo string) []byte {
 
 	// Lock types (iota enum in litefs.go / db.go)
 	b.WriteString("\n" + genGates(repo, files) + "\n")
+	b.WriteString(genWriteLockSeq(files["db.go"]) + "\n")
 	b.WriteString("end LiteFSVerif.Gen.Facts\n")
 	return []byte(b.String())
 }
@@ -704,3 +705,34 @@ func hasWriteGate(fd *ast.FuncDecl) bool {
 // ---------------------------------------------------------------------------
 // Integer helpers (filled in by ints.go)
 // ---------------------------------------------------------------------------
+
+// genWriteLockSeq records, in source order, every guard call `gs.<lock>.<Method>()` made by
+// (*DB).TryAcquireWriteLock, and whether the function contains any loop (a loop would hide calls).
+func genWriteLockSeq(db *ast.File) string {
+	fd := findFunc(db, "DB", "TryAcquireWriteLock")
+	var b strings.Builder
+	b.WriteString("/-- guard calls of `TryAcquireWriteLock` in source order: (lock, method) -/\n")
+	if fd == nil {
+		b.WriteString("def writeLockSeq : List (String × String) := []\ndef writeLockLoops : Nat := 0\n")
+		return b.String()
+	}
+	var calls []string
+	loops := 0
+	ast.Inspect(fd.Body, func(n ast.Node) bool {
+		switch x := n.(type) {
+		case *ast.ForStmt, *ast.RangeStmt:
+			loops++
+		case *ast.CallExpr:
+			if p, ok := selPath(x.Fun); ok {
+				parts := strings.Split(p, ".")
+				if len(parts) == 3 && parts[0] == "gs" {
+					calls = append(calls, fmt.Sprintf("(%q, %q)", parts[1], parts[2]))
+				}
+			}
+		}
+		return true
+	})
+	fmt.Fprintf(&b, "def writeLockSeq : List (String × String) := [%s]\n", strings.Join(calls, ", "))
+	fmt.Fprintf(&b, "def writeLockLoops : Nat := %d\n", loops)
+	return b.String()
+}
